@@ -587,20 +587,99 @@ Proof.
   - cbn [nth_error] in H. cbn [length seq combine nth_error]. rewrite (IH (S s) i H). f_equal. f_equal. lia.
 Qed.
 
+Lemma asm_fwd_length l : forall prev, length (asm_fwd prev l) = length l.
+Proof. induction l as [|[tok m] r IH]; intros prev; [reflexivity|]. cbn [asm_fwd length]. rewrite IH. reflexivity. Qed.
+
+Lemma asm_bwd_length l : length (asm_bwd l) = length l.
+Proof. induction l as [|[tok m] r IH]; [reflexivity|]. cbn [asm_bwd length]. rewrite IH. reflexivity. Qed.
+
+Lemma asm_base_length toks lines : length (asm_base toks lines) = length toks.
+Proof. unfold asm_base. rewrite map_length, seq_length. reflexivity. Qed.
+
+Theorem asm_marks_length toks lines : length (asm_marks toks lines) = length toks.
+Proof.
+  unfold asm_marks. rewrite asm_bwd_length, combine_length, asm_fwd_length, combine_length, asm_base_length, !Nat.min_id. reflexivity.
+Qed.
+
 Theorem ignore_marks_length toks lines : length (ignore_marks toks lines) = length toks.
 Proof.
-  unfold ignore_marks. rewrite map_length, combine_length, seq_length, Nat.min_id. apply toggle_marks_length.
+  unfold ignore_marks. rewrite map_length, combine_length, toggle_marks_length, asm_marks_length, Nat.min_id. reflexivity.
+Qed.
+
+(* the two passes only ADD marks, and only on conditional directives *)
+Lemma asm_fwd_spec l : forall prev i tok m,
+  nth_error l i = Some (tok, m) ->
+  exists m', nth_error (asm_fwd prev l) i = Some m' /\ (m = true -> m' = true) /\ (m' = true -> m = true \/ is_cond_dir_tok tok = true).
+Proof.
+  induction l as [|[t0 m0] r IH]; intros prev [|i] tok m H; try discriminate.
+  - cbn [nth_error] in H. injection H as -> ->. cbn [asm_fwd nth_error]. eexists. split; [reflexivity|].
+    split; [intros ->; reflexivity|]. intros Hm. apply orb_true_iff in Hm. destruct Hm as [Hm|Hm]; [left; exact Hm|right].
+    apply andb_true_iff in Hm. destruct Hm as [Hm _]. apply andb_true_iff in Hm. destruct Hm as [Hm _]. exact Hm.
+  - cbn [nth_error] in H. cbn [asm_fwd nth_error]. apply IH. exact H.
+Qed.
+
+Lemma asm_bwd_spec l : forall i tok m,
+  nth_error l i = Some (tok, m) ->
+  exists m', nth_error (asm_bwd l) i = Some m' /\ (m = true -> m' = true) /\ (m' = true -> m = true \/ is_cond_dir_tok tok = true).
+Proof.
+  induction l as [|[t0 m0] r IH]; intros [|i] tok m H; try discriminate.
+  - cbn [nth_error] in H. injection H as -> ->. cbn [asm_bwd nth_error]. eexists. split; [reflexivity|].
+    split; [intros ->; reflexivity|]. intros Hm. apply orb_true_iff in Hm. destruct Hm as [Hm|Hm]; [left; exact Hm|right].
+    apply andb_true_iff in Hm. destruct Hm as [Hm _]. exact Hm.
+  - cbn [nth_error] in H. cbn [asm_bwd nth_error]. apply IH. exact H.
+Qed.
+
+Lemma combine_nth_error {A B} (a : list A) (b : list B) i x y :
+  nth_error a i = Some x -> nth_error b i = Some y -> nth_error (combine a b) i = Some (x, y).
+Proof.
+  revert b i. induction a as [|a0 a IH]; intros [|b0 b] [|i] Ha Hb; try discriminate.
+  - cbn in *. congruence.
+  - cbn [nth_error combine] in *. apply IH; assumption.
+Qed.
+
+Lemma asm_base_nth toks lines i tok : nth_error toks i = Some tok -> nth_error (asm_base toks lines) i = Some (asm_marked lines i).
+Proof.
+  intros H. unfold asm_base. rewrite nth_error_map.
+  assert (Hi : (i < length toks)%nat) by (apply nth_error_Some; congruence).
+  rewrite (nth_error_nth' (seq 0 (length toks)) 0%nat) by (rewrite seq_length; exact Hi).
+  rewrite seq_nth by exact Hi. reflexivity.
+Qed.
+
+(* every token of an instruction line stays marked; whatever else is marked is a conditional directive *)
+Theorem asm_marks_spec toks lines i tok :
+  nth_error toks i = Some tok ->
+  exists m, nth_error (asm_marks toks lines) i = Some m
+            /\ (asm_marked lines i = true -> m = true)
+            /\ (m = true -> asm_marked lines i = true \/ is_cond_dir_tok tok = true).
+Proof.
+  intros H. unfold asm_marks.
+  pose proof (asm_base_nth toks lines i tok H) as Hb.
+  destruct (asm_fwd_spec (combine toks (asm_base toks lines)) false i tok (asm_marked lines i) (combine_nth_error _ _ _ _ _ H Hb)) as (m1 & H1 & H1a & H1b).
+  destruct (asm_bwd_spec (combine toks (asm_fwd false (combine toks (asm_base toks lines)))) i tok m1 (combine_nth_error _ _ _ _ _ H H1)) as (m2 & H2 & H2a & H2b).
+  exists m2. split; [exact H2|]. split.
+  - intros Hm. apply H2a, H1a, Hm.
+  - intros Hm. destruct (H2b Hm) as [Hm1|Hd]; [|right; exact Hd]. exact (H1b Hm1).
 Qed.
 
 Theorem ignore_marks_spec toks lines i tok :
   nth_error toks i = Some tok ->
-  nth_error (ignore_marks toks lines) i
-  = Some (state_at false toks i || is_toggle_tok tok || asm_marked lines i).
+  exists am, nth_error (asm_marks toks lines) i = Some am /\
+  nth_error (ignore_marks toks lines) i = Some (state_at false toks i || is_toggle_tok tok || am).
 Proof.
-  intros H. unfold ignore_marks.
+  intros H. destruct (asm_marks_spec toks lines i tok H) as (am & Ha & _).
+  exists am. split; [exact Ha|]. unfold ignore_marks.
   pose proof (toggle_marks_spec false toks i tok H) as Hm.
-  rewrite nth_error_map, (combine_seq_nth_error _ 0 i _ Hm). reflexivity.
+  rewrite nth_error_map, (combine_nth_error _ _ _ _ _ Hm Ha). reflexivity.
 Qed.
+
+(* an instruction with a conditional directive group at its end: PUSH {$IFDEF A} rbx {$ENDIF} <newline> ret *)
+Example asm_marks_example :
+  let t ty ws := mkToken ws [120] ty in
+  let toks := [t TT_Identifier [10; 32]; t (TT_ConditionalDirective CDK_Ifdef) [32]; t TT_Identifier [32];
+               t (TT_ConditionalDirective CDK_Endif) [32]; t TT_Identifier [10; 32]; t (TT_ConditionalDirective CDK_Endif) [10]] in
+  asm_marks toks [(LLT_AsmInstruction, [0; 2]%nat); (LLT_AsmInstruction, [0]%nat); (LLT_AsmInstruction, [4]%nat)]
+  = [true; true; true; true; true; false].
+Proof. vm_compute. reflexivity. Qed.
 
 (* ------------------------------------------------------------------ *)
 (* examples *)
